@@ -165,6 +165,17 @@ def gen_shot(pbc, rng, *, flat=False, allow_cant=True, max_look=60.0, winds=None
     return shot, table
 
 
+def _true_table(rng, tab):
+    """the user 'trues' the model's own drag table in place (the list a calculator has already seen): the coefficients from some Mach
+    number upwards scaled by a few per cent - the result is still a drag table (positive), the list object is the same"""
+    P = type(tab[0])
+    m0 = rng.choice([0.0, 0.9, 1.0, 1.5])
+    f = rng.uniform(1.02, 1.1)
+    for i, p in enumerate(tab):
+        if p.Mach >= m0:
+            tab[i] = P(p.Mach, p.CD * f)
+
+
 def edit_in_place(pbc, rng, shot):
     """the user edits an existing shot IN PLACE (assigns public attributes of the very objects a calculator has already seen);
     returns a description.  Only raw magnitudes read at call time may matter to a computation, never what an object held earlier."""
@@ -186,7 +197,9 @@ def edit_in_place(pbc, rng, shot):
               lambda: setattr(shot.ammo, 'powder_temp', U.Celsius(rng.uniform(-10, 30))),
               lambda: setattr(shot.ammo, 'use_powder_sensitivity', not shot.ammo.use_powder_sensitivity),
               lambda: setattr(shot.ammo, 'temp_modifier', rng.choice([0.0, rng.uniform(0.001, 0.03)])),
-              lambda: setattr(shot.atmo, 'humidity', rng.uniform(0, 1))]
+              lambda: setattr(shot.atmo, 'humidity', rng.uniform(0, 1)),
+              lambda: _true_table(rng, shot.ammo.dm.drag_table),
+              lambda: setattr(shot.ammo.dm, 'BC', shot.ammo.dm.BC * rng.uniform(0.9, 1.1))]
     k = rng.randrange(len(edits))
     edits[k]()
     return k
